@@ -37,25 +37,149 @@ func (c *stallClock) NowNano() int64 {
 func (c *stallClock) Tick(d time.Duration) <-chan time.Time { return c.never }
 
 type sweepScenario struct {
-	TTL      int64  `json:"ttl"`      // ns
-	Jump     int64  `json:"jump"`     // ns the clock moves while the writer is stalled
-	Later    int64  `json:"later"`    // ns between the two maintenance runs (> one tick)
-	Op       string `json:"op"`       // set | compute | setifabsent | get
+	TTL      int64  `json:"ttl"`   // ns
+	Jump     int64  `json:"jump"`  // ns the clock moves while the writer is stalled
+	Later    int64  `json:"later"` // ns between the two maintenance runs (> one tick)
+	Op       string `json:"op"`    // set | compute | setifabsent | get
 	Sized    int    `json:"sized"`
 	SyncExec int    `json:"syncexec"`
-	Warm     int    `json:"warm"`     // entries written (and swept) before the race
+	Warm     int    `json:"warm"` // entries written (and swept) before the race
+	Max      int    `json:"max"`  // readrace: MaximumSize of a sized cache (filled after the race)
+}
+
+// parkCalc: ExpiryAccessing(ttl) whose read hook parks the armed goroutine - "reads only ever extend deadlines"
+type parkCalc struct {
+	ttl    time.Duration
+	armed  atomic.Bool
+	gid    atomic.Uint64
+	parked chan struct{}
+	resume chan struct{}
+}
+
+func (p *parkCalc) ExpireAfterCreate(Entry[int, int]) time.Duration      { return p.ttl }
+func (p *parkCalc) ExpireAfterUpdate(Entry[int, int], int) time.Duration { return p.ttl }
+func (p *parkCalc) ExpireAfterRead(Entry[int, int]) time.Duration {
+	if p.armed.Load() && verifkit.GoID() == p.gid.Load() && p.armed.CompareAndSwap(true, false) {
+		p.parked <- struct{}{}
+		<-p.resume
+	}
+	return p.ttl
+}
+
+// runReadRace (C13, C04): a read samples the clock shortly before the entry's deadline and is parked before it stores the
+// extended deadline; the deadline passes, maintenance runs (and, when the read holds the bucket lock, waits for it), the read
+// completes.  Whatever the outcome of that race, once every deadline has passed by more than a tick the entry must be gone
+// and reported, and a sized cache filled right after the race must stay within its maximum.
+func runReadRace(sc sweepScenario) sweepResult {
+	res := sweepResult{T: "sweep", Sc: sc, TickNs: 1 << 30}
+	clk := &stallClock{never: make(chan time.Time), stalled: make(chan struct{}), resume: make(chan struct{})}
+	clk.now.Store(int64(5) << 30)
+	calc := &parkCalc{ttl: time.Duration(sc.TTL), parked: make(chan struct{}), resume: make(chan struct{})}
+	var mu sync.Mutex
+	o := &Options[int, int]{
+		Clock:            clk,
+		ExpiryCalculator: calc,
+		OnDeletion: func(e DeletionEvent[int, int]) {
+			if e.Key != 1 {
+				return
+			}
+			mu.Lock()
+			if e.Cause == CauseExpiration {
+				res.Expired++
+			} else {
+				res.Other++
+			}
+			mu.Unlock()
+		},
+	}
+	if sc.Sized == 1 {
+		o.MaximumSize = sc.Max
+	}
+	if sc.SyncExec == 1 {
+		o.Executor = func(fn func()) { fn() }
+	}
+	c := Must(o)
+	defer c.StopAllGoroutines()
+	c.Set(1, 11)
+	c.CleanUp()
+	clk.now.Add(sc.TTL - 1000) // shortly before the deadline
+	done := make(chan struct{})
+	go func() {
+		defer close(done)
+		calc.gid.Store(verifkit.GoID())
+		calc.armed.Store(true)
+		switch sc.Op {
+		case "read.setifabsent":
+			c.SetIfAbsent(1, 99) // the read hook runs inside the key's table computation
+		case "read.getentry":
+			c.GetEntry(1)
+		default:
+			c.GetIfPresent(1)
+		}
+	}()
+	select {
+	case <-calc.parked:
+	case <-time.After(3 * time.Second):
+		res.Hang = 1
+		return res
+	}
+	clk.now.Add(1000 + sc.Jump) // the deadline passes
+	swept := make(chan struct{})
+	go func() {
+		defer close(swept)
+		c.CleanUp()
+	}()
+	select {
+	case <-swept:
+	case <-time.After(150 * time.Millisecond): // maintenance waits for the bucket lock the read holds
+	}
+	calc.resume <- struct{}{}
+	for _, ch := range []chan struct{}{done, swept} {
+		select {
+		case <-ch:
+		case <-time.After(3 * time.Second):
+			res.Hang = 1
+			return res
+		}
+	}
+	time.Sleep(2 * time.Millisecond)
+	c.CleanUp()
+	res.EstMid = c.EstimatedSize()
+	if sc.Sized == 1 {
+		for i := 0; i < sc.Max+2; i++ {
+			c.Set(1000+i, i)
+		}
+		c.CleanUp()
+		time.Sleep(2 * time.Millisecond)
+		c.CleanUp()
+		for k := range c.All() {
+			_ = k
+			res.Live++
+		}
+	}
+	clk.now.Add(sc.Later)
+	c.CleanUp()
+	time.Sleep(2 * time.Millisecond)
+	c.CleanUp()
+	res.Est = c.EstimatedSize()
+	if _, ok := c.GetIfPresent(1); ok {
+		res.Visible = 1
+	}
+	time.Sleep(2 * time.Millisecond)
+	return res
 }
 
 type sweepResult struct {
-	T        string        `json:"t"`
-	Sc       sweepScenario `json:"sc"`
-	Est      int           `json:"est"`      // EstimatedSize after the last CleanUp
-	EstMid   int           `json:"estmid"`   // EstimatedSize right after the racing write returned
-	Visible  int           `json:"visible"`  // 1 = GetIfPresent still returns the racing entry at the end
-	Expired  int           `json:"expired"`  // Expiration events delivered for the racing key
-	Other    int           `json:"other"`    // other deletion events for the racing key
-	TickNs   int64         `json:"tickns"`
-	Hang     int           `json:"hang"`
+	T       string        `json:"t"`
+	Sc      sweepScenario `json:"sc"`
+	Est     int           `json:"est"`     // EstimatedSize after the last CleanUp
+	EstMid  int           `json:"estmid"`  // EstimatedSize right after the racing write returned
+	Visible int           `json:"visible"` // 1 = GetIfPresent still returns the racing entry at the end
+	Expired int           `json:"expired"` // Expiration events delivered for the racing key
+	Other   int           `json:"other"`   // other deletion events for the racing key
+	TickNs  int64         `json:"tickns"`
+	Hang    int           `json:"hang"`
+	Live    int           `json:"live"` // readrace, sized: entries iteration yields after the cache was filled
 }
 
 func runSweepScenario(sc sweepScenario) sweepResult {
@@ -158,6 +282,10 @@ func TestVerifSweep(t *testing.T) {
 	defer w.Flush()
 	enc := json.NewEncoder(w)
 	for _, sc := range scs {
+		if len(sc.Op) > 5 && sc.Op[:5] == "read." {
+			_ = enc.Encode(runReadRace(sc))
+			continue
+		}
 		_ = enc.Encode(runSweepScenario(sc))
 	}
 }
